@@ -209,6 +209,9 @@ def job_history(gen, dim, seq, tier):
             elif op == "seed_setter":
                 srf.generator.seed = SB
                 state["seed"] = SB
+            elif op == "seed_setter_A":
+                srf.generator.seed = SA
+                state["seed"] = SA
             elif op == "period":
                 srf.generator.period = [6.0] * dim
                 state["period"] = [6.0] * dim
@@ -294,6 +297,12 @@ def jobs(tier, seed):
             if tier == "quick" and dim == 2:
                 # 2-D quick: single operations and pairs that involve the geometric parameters
                 seqs = [(o,) for o in ops] + [s for s in itertools.product(ops, repeat=2) if ("anis" in s or "angles" in s or "period" in s)]
+            if dim == 1:
+                # there and back: leave the first seed, change something, return to the first seed (per-seed memoisation must not survive)
+                mid = [o for o in ops if o in ("var", "len_scale", "mode_no", "period", "call_noseed")]
+                seqs += [("seed_setter", m, "seed_setter_A") for m in mid] + [("call_seedB", m, "call_seedA") for m in mid]
+                seqs += [("call_noseed", "seed_setter", m, "seed_setter_A") for m in ("mode_no", "var")]
+            seqs = list(dict.fromkeys(seqs))
             for s in seqs:
                 js.append(Job(f"hist-{gen}-d{dim}-{'>'.join(s)}", job_history, gen, dim, s, tier))
     return js
@@ -395,6 +404,9 @@ def replay_history(inputs):
         elif op == "seed_setter":
             srf.generator.seed = SB
             state["seed"] = SB
+        elif op == "seed_setter_A":
+            srf.generator.seed = SA
+            state["seed"] = SA
         elif op == "period":
             srf.generator.period = [6.0] * dim
             state["period"] = [6.0] * dim
